@@ -2,7 +2,7 @@
    components. *)
 From Coq Require Import String.
 From Coq Require Import List NArith ZArith Bool Arith Lia.
-From VF Require Import Base.Sx Conc.Machine Conc.Lin Conc.MachineProofs Conc.LinProofs Conc.Instances
+From VF Require Import Base.Sx Conc.Machine Conc.Lin Conc.MachineProofs Conc.LinProofs Conc.RealTime Conc.Instances
   Conc.InstanceProofs C19.Entry.
 Import ListNotations.
 Local Open Scope nat_scope.
@@ -10,38 +10,71 @@ Local Open Scope nat_scope.
 Lemma fuel_ok {E A} (sch : list (choice E)) (calls : list (list A)) : length sch < fuel_for sch calls.
 Proof. unfold fuel_for. lia. Qed.
 
-Lemma holds_cache capacity calls sch :
-  all_done _ _ _ _ _ (c_run true (c_init capacity calls) sch) = true ->
-  holds (Cache capacity calls sch) (run_model (Cache capacity calls sch)) = [].
+Lemma opt_r_refl : forall o : option R, opt_eqb r_eqb o o = true.
+Proof. apply opt_eqb_refl. apply r_eqb_refl. Qed.
+
+Lemma wrap_plain l : no_none l = true -> wrap_obs (plain l) = l.
+Proof. apply wrap_unwrap. Qed.
+
+(* lock_linearizable, real-time form, for the three lock-protected components: the instrumented programs
+   are single critical sections, so the results of any complete run are accepted by the search that
+   also enforces the real-time order *)
+Lemma holds_cache capacity calls st sch :
+  valid (Cache capacity calls st sch) ->
+  holds (Cache capacity calls st sch) (run_model (Cache capacity calls st sch)) = [].
 Proof.
-  intros Hd.
-  assert (K : c_search capacity calls sch (run_model (Cache capacity calls sch)) = true) by exact (lin_accepts lru unit (ccall * R) ccall R unit c_begin (cache_prog true) c_ret c_env r_eqb r_eqb_refl
-             cache_body cache_prog_cs (c_init capacity calls) sch (fuel_for sch calls)
-             (inv_init lru unit (ccall * R) ccall R (CLen, []) _ tt calls) Hd (fuel_ok sch calls)).
+  intros [Hd Hn].
+  assert (K : cr_search capacity calls st sch (run_model (Cache capacity calls st sch)) = true).
+  { unfold cr_search. cbn [run_model]. rewrite (wrap_plain _ Hn).
+    exact (lin_accepts (robj lru) unit (rls (ccall * R)) (rcall ccall) (option R) unit (rbegin _ _ c_begin)
+             (rprog _ _ _ _ cache_body) (rret _ _ c_ret) c_env (opt_eqb r_eqb) opt_r_refl
+             (rbody _ _ _ _ cache_body) (rprog_cs _ _ _ _ cache_body) (cr_init capacity calls st) sch (fuel_for sch calls)
+             (inv_init (robj lru) unit (rls (ccall * R)) (rcall ccall) (option R) _ _ tt _) Hd (fuel_ok sch calls)). }
   cbn [holds]. rewrite K. reflexivity.
 Qed.
 
-Lemma holds_text contents badl ce calls sch :
-  all_done _ _ _ _ _ (t_run contents badl ce true (t_init calls) sch) = true ->
-  holds (Text contents badl ce calls sch) (run_model (Text contents badl ce calls sch)) = [].
+Lemma holds_text contents badl ce calls st sch :
+  valid (Text contents badl ce calls st sch) ->
+  holds (Text contents badl ce calls st sch) (run_model (Text contents badl ce calls st sch)) = [].
 Proof.
-  intros Hd.
-  assert (K : t_search contents badl ce calls sch (run_model (Text contents badl ce calls sch)) = true) by exact (lin_accepts tobj nat tls tcall R unit t_begin (t_prog contents badl ce true) tres t_env r_eqb r_eqb_refl
-             (text_body (t_contents contents) (t_bad badl) ce)
-             (text_prog_cs (t_contents contents) (t_bad badl) ce) (t_init calls) sch (fuel_for sch calls)
-             (inv_init tobj nat tls tcall R (t_begin (TGet 0)) _ 0 calls) Hd (fuel_ok sch calls)).
+  intros [Hd Hn].
+  assert (K : tr_search contents badl ce calls st sch (run_model (Text contents badl ce calls st sch)) = true).
+  { unfold tr_search. cbn [run_model]. rewrite (wrap_plain _ Hn).
+    exact (lin_accepts (robj tobj) nat (rls tls) (rcall tcall) (option R) unit (rbegin _ _ t_begin)
+             (rprog _ _ _ _ (text_body (t_contents contents) (t_bad badl) ce)) (rret _ _ tres) t_env (opt_eqb r_eqb) opt_r_refl
+             (rbody _ _ _ _ (text_body (t_contents contents) (t_bad badl) ce))
+             (rprog_cs _ _ _ _ (text_body (t_contents contents) (t_bad badl) ce)) (tr_init calls st) sch (fuel_for sch calls)
+             (inv_init (robj tobj) nat (rls tls) (rcall tcall) (option R) _ _ 0 _) Hd (fuel_ok sch calls)). }
   cbn [holds]. rewrite K. reflexivity.
 Qed.
 
-Lemma holds_store calls sch :
-  all_done _ _ _ _ _ (s_run (s_init calls) sch) = true ->
-  holds (Store calls sch) (run_model (Store calls sch)) = [].
+Lemma holds_store calls st sch :
+  valid (Store calls st sch) -> holds (Store calls st sch) (run_model (Store calls st sch)) = [].
 Proof.
-  intros Hd.
-  assert (K : s_search calls sch (run_model (Store calls sch)) = true) by exact (lin_accepts store unit (scall * R) scall R unit s_begin store_prog s_ret c_env r_eqb r_eqb_refl
-             store_body store_prog_cs (s_init calls) sch (fuel_for sch calls)
-             (inv_init store unit (scall * R) scall R (SGetData 0, []) _ tt calls) Hd (fuel_ok sch calls)).
+  intros [Hd Hn].
+  assert (K : sr_search calls st sch (run_model (Store calls st sch)) = true).
+  { unfold sr_search. cbn [run_model]. rewrite (wrap_plain _ Hn).
+    exact (lin_accepts (robj store) unit (rls (scall * R)) (rcall scall) (option R) unit (rbegin _ _ s_begin)
+             (rprog _ _ _ _ store_body) (rret _ _ s_ret) c_env (opt_eqb r_eqb) opt_r_refl
+             (rbody _ _ _ _ store_body) (rprog_cs _ _ _ _ store_body) (sr_init calls st) sch (fuel_for sch calls)
+             (inv_init (robj store) unit (rls (scall * R)) (rcall scall) (option R) _ _ tt _) Hd (fuel_ok sch calls)). }
   cbn [holds]. rewrite K. reflexivity.
+Qed.
+
+Lemma existsb_r_eqb r l : In r l -> existsb (r_eqb r) l = true.
+Proof. intros H. apply existsb_exists. exists r. split; [exact H | apply r_eqb_refl]. Qed.
+
+Lemma holds_yaml table tree w0 ncalls st sch post :
+  valid (Yaml table tree w0 ncalls st sch post) ->
+  holds (Yaml table tree w0 ncalls st sch post) (run_model (Yaml table tree w0 ncalls st sch post)) = [].
+Proof.
+  intros [Hlen Hord]. cbn [holds run_model]. rewrite Hord.
+  assert (Hm : y_member (y_specs table tree w0 sch)
+                 (results _ _ _ _ _ (y_run table tree true (y_init w0 ncalls) sch)) = true).
+  { unfold y_member, results. apply forallb_forall. intros rs Hrs. apply in_map_iff in Hrs.
+    destruct Hrs as (t & <- & Ht). apply forallb_forall. intros r Hr. apply existsb_r_eqb.
+    exact (yaml_results_in_specs (y_table table) tree w0 (map (fun n => repeat tt n) ncalls) sch Hlen t Ht r Hr). }
+  rewrite Hm. reflexivity.
 Qed.
 
 Theorem holds_model c : valid c -> holds c (run_model c) = [].
@@ -50,5 +83,5 @@ Proof.
   - apply holds_cache. exact Hv.
   - apply holds_text. exact Hv.
   - apply holds_store. exact Hv.
-  - destruct Hv.
+  - apply holds_yaml. exact Hv.
 Qed.
